@@ -48,7 +48,10 @@ const DeclaratorSyntax* SyntaxUtilities::innerDeclaratorOf(const DeclaratorSynta
         case SyntaxKind::FunctionDeclarator:
             return decltor->asArrayOrFunctionDeclarator()->innerDeclarator();
         case SyntaxKind::BitfieldDeclarator:
-            return decltor->asBitfieldDeclarator()->innerDeclarator();
+            // An unnamed bit-field has no inner declarator: it is its own innermost one.
+            return decltor->asBitfieldDeclarator()->innerDeclarator()
+                    ? decltor->asBitfieldDeclarator()->innerDeclarator()
+                    : decltor;
         case SyntaxKind::ParenthesizedDeclarator:
             return decltor->asParenthesizedDeclarator()->innerDeclarator();
         default:
